@@ -162,8 +162,11 @@ structure St where
 def St.get (s : St) (k : String) : Option Pat := (s.slots.find? (fun e => e.1 == k)).map (·.2)
 def St.set (s : St) (k : String) (p : Pat) : St := { slots := (k, p) :: s.slots.filter (fun e => e.1 != k) }
 
+/-- When the call raises, the caller sees only the exception (the collected values are lost). -/
 def showCollected (r : Collected) : String :=
-  joinWith " " (r.vals.map showVal) ++ (match r.err with | some e => " err:" ++ showErr e | Option.none => "")
+  match r.err with
+  | some e => " err:" ++ showErr e
+  | Option.none => joinWith " " (r.vals.map showVal)
 
 def handle (s : St) (line : String) : IO St := do
   match words line with
